@@ -655,7 +655,7 @@ def run_unit(ctx):
     # enough for 65535 entries); 65534 with the same bytes is an ordinary (all-zero) node of 65534 entries - not evaluated
     # by the model here (too long for the list-based evaluation), only its short-file error twin
     hdr65535 = py_node(0, [], (0, 0, [0]), used=65535)[:24]
-    for f in (hdr65535 + bytes(65535 * 24 + 16), hdr65535 + bytes(4096)):
+    for f in (hdr65535 + bytes(4096),):    # the long-file twin parses since fix 18c9d53 (65535 entries: too long for the list-based evaluation)
         tree_cases.append(dict(mode="indexraw", file=f.hex(), root=0, osz=8, ndims=1, cdims=[4]))
         tree_expect.append(None)
     raw_cases = tree_cases + gen_raw_cases(rng, raw_bases, thorough)
